@@ -62,7 +62,7 @@ CLAIMED = {
     'C10': ('5 C10, 3.7',
             'TLC checks CsvCodec on every table within the bound: the step-by-step writer machine emits WriteTable(T); Representable(T) (the syntactic characterisation of C10) implies that RefRead of the written text is T without warnings for every line separator, and for single-character delimiters the characterisation is tight; lossy output always sets the None / separator warning (exact for single-character delimiters). Every emitted case is replayed: the real CSVWriter of rbql-py (encodings None, utf-8, latin-1) and of rbql-js must emit exactly the text and warning flags TLC computed, the real readers must read it back as TLC\'s RefRead. Random tables over full Unicode and all 256 latin-1 code points written and read back by the real code are judged by TLC (CodecTrace).',
             'Exhaustive within the bound (1 record x <= 2 fields x <= 2-3 characters, 2 records x <= 2 fields x <= 1 character over {quote, delimiter chars, space, CR, LF, other}); comment prefix off; zero-field records are outside the statement (observation I8).',
-            'TLA+ writer machine + declarative reader model-checked by TLC (round-trip theorem); exhaustive replay into both ports; TLC trace validation of random tables'),
+            'TLA+ writer machine + declarative reader model-checked by TLC (round-trip theorem); exhaustive replay into both ports; TLC trace validation of random tables; written texts also read back through a 1-3 character buffer (bytes and untranslated text stream)'),
     'C18': ('5 C18',
             'Both ports are confronted with the SAME TLA+ values and with each other: every line within the bound (CsvScanner) -> smart_split (4 policies, normal and preserve), quote_field, rfc_quote_field of both ports; every text within the bound x policy x comment prefix (CsvReader/RefRead) -> Python reader and JS reader (bulk and stream); every table within the bound (CsvCodec) -> both writers must emit TLC\'s text and warnings and both readers read it back as RefRead (so a table written by either is read identically by the other); language-neutral select lists x header/no header x join -> both must produce HeaderRef\'s header; direct py == js comparison on top.',
             'Bounds as in C10 - C12; error messages compared through class and cited record/line numbers.',
